@@ -69,6 +69,7 @@ fn main() {
         "C10" => facets::c10::run(&opts),
         "C05" => facets::c05::run(&opts),
         "C18" => facets::c18::run(&opts),
+        "C17" => facets::c17::run(&opts),
         other => {
             eprintln!("unknown facet {}", other);
             std::process::exit(2)
